@@ -23,7 +23,18 @@ func zzCheckWF(p ControlPacket, malformed bool, what string) {
 // ZZ_C17_pub: PUBLISH through the API. a[0] = topic length, a[1] = 1: other
 // fields present.
 func ZZ_C17_pub(a []int) {
-	topic := zzBytes("topic", a[0])
+	var topic []byte
+	if a[0] <= 24 {
+		topic = zzBytes("topic", a[0])
+	} else {
+		// long topics: concrete filler with two symbolic bytes at each end
+		topic = make([]byte, a[0])
+		for i := range topic {
+			topic[i] = byte('a' + i%23)
+		}
+		copy(topic, zzBytes("topic.head", 2))
+		copy(topic[a[0]-2:], zzBytes("topic.tail", 2))
+	}
 	alias := zzU16("alias")
 	qos := zzU8("qos")
 	pid := zzU16("pid")
